@@ -1017,7 +1017,22 @@ impl<'a> CExec<'a> {
                 self.convert_to(v, &t)
             }
             ast::Expression::Call(callee, targs, args) => self.call_expr(&callee.node, targs, args),
-            ast::Expression::BracedInit(..) => unsup("braced init"),
+            ast::Expression::BracedInit(ty, items) => {
+                // T { a, b, c }: aggregate initialisation; a flat list is distributed over the (nested) members in order
+                // (brace elision), and the initialisers are evaluated in the order written, each exactly once
+                let ns = self.ns_stack.last().cloned().unwrap_or_default();
+                let base = self.base_type(&ty.base, &ns);
+                let (_, t, _) = self.apply_declarator(base, &ty.abstract_declarator)?;
+                if matches!(t, CTy::Tag) {
+                    return unsup(format!("braced init of {}", qualified(&ty.base.layout.0)));
+                }
+                let mut pos = 0usize;
+                let v = self.fill_flat(items, &mut pos, &t)?;
+                if pos != items.len() {
+                    return unsup("braced init with excess elements");
+                }
+                Ok(v)
+            }
             ast::Expression::SizeOf(_) => unsup("sizeof"),
             ast::Expression::AmbiguousParseBranch(branches) => {
                 // the parser could not decide without type information: take the branch whose required type names are types here
@@ -1617,6 +1632,37 @@ impl<'a> CExec<'a> {
                 _ => unsup("aggregate initialiser for this type"),
             },
             ast::Initializer::StaticSampler(_) => unsup("static sampler"),
+        }
+    }
+
+    fn fill_flat(&mut self, items: &[ast::Initializer], pos: &mut usize, ty: &CTy) -> R<Value> {
+        // a nested brace group initialises the whole sub-object
+        if let Some(ast::Initializer::Aggregate(_)) = items.get(*pos) {
+            let it = &items[*pos];
+            *pos += 1;
+            return self.initializer(it, ty);
+        }
+        match ty {
+            CTy::Array(inner, n) => {
+                let mut out = Vec::new();
+                for _ in 0..*n {
+                    out.push(self.fill_flat(items, pos, inner)?);
+                }
+                Ok(Value::Array(out))
+            }
+            CTy::Struct(si) => {
+                let fields = self.structs[*si].fields.clone();
+                let mut out = Vec::new();
+                for (_, fty) in &fields {
+                    out.push(self.fill_flat(items, pos, fty)?);
+                }
+                Ok(Value::Struct(*si as u32, out))
+            }
+            _ => {
+                let Some(it) = items.get(*pos) else { return unsup("braced init with too few elements") };
+                *pos += 1;
+                self.initializer(it, ty)
+            }
         }
     }
 
